@@ -77,10 +77,11 @@ Record mstate := mkMstate {
   ms_lastaddr : list (N * N);      (* connection -> last address list it was given *)
   ms_connected : list (N * bool);  (* connection -> Connect() called since its last address change *)
   ms_fail : bool;                  (* the harness' connection factory is failing *)
-  ms_raw : option (option config)  (* the configuration fixed by the first accepted resolver update *)
+  ms_raw : option (option config); (* the configuration fixed by the first accepted resolver update *)
+  ms_res : Z                       (* swaps that revived a channel whose old connection had been shut down (finding RES) *)
 }.
 
-Definition ms_init : mstate := mkMstate [] None [] [] [] [] false None.
+Definition ms_init : mstate := mkMstate [] None [] [] [] [] false None 0.
 
 Definition eff (raw : option config) : config := effective raw.
 
@@ -138,11 +139,11 @@ Definition o_slot_in_pool (o : obs) (i : nat) : bool :=
   end.
 
 Definition ms_with_picks (m : mstate) picks :=
-  mkMstate (ms_pubs m) (ms_lastpub m) picks (ms_home m) (ms_lastaddr m) (ms_connected m) (ms_fail m) (ms_raw m).
+  mkMstate (ms_pubs m) (ms_lastpub m) picks (ms_home m) (ms_lastaddr m) (ms_connected m) (ms_fail m) (ms_raw m) (ms_res m).
 Definition ms_with_home (m : mstate) home :=
-  mkMstate (ms_pubs m) (ms_lastpub m) (ms_picks m) home (ms_lastaddr m) (ms_connected m) (ms_fail m) (ms_raw m).
+  mkMstate (ms_pubs m) (ms_lastpub m) (ms_picks m) home (ms_lastaddr m) (ms_connected m) (ms_fail m) (ms_raw m) (ms_res m).
 Definition ms_with_fail (m : mstate) f :=
-  mkMstate (ms_pubs m) (ms_lastpub m) (ms_picks m) (ms_home m) (ms_lastaddr m) (ms_connected m) f (ms_raw m).
+  mkMstate (ms_pubs m) (ms_lastpub m) (ms_picks m) (ms_home m) (ms_lastaddr m) (ms_connected m) f (ms_raw m) (ms_res m).
 
 (* the configuration in force during/after an event: fixed by the first
    accepted resolver update (nil / wrong-type config = defaults) *)
@@ -156,6 +157,18 @@ Definition raw_in_force (raw : option config) (ms : mstate) (o : op) : option co
             end
   end.
 
+(* a completed refresh whose old connection had already left the pool (it was
+   shut down during the refresh): the swap puts the channel back into the pool *)
+Definition is_resurrection (before : obs) (ev : event) : bool :=
+  match ev_op ev with
+  | OpConnState sc Ready =>
+      match aget (o_refr before) sc with
+      | Some i => negb (o_slot_in_pool before i)
+      | None => false
+      end
+  | _ => false
+  end.
+
 (* new bookkeeping after an event; [before]/[after] are the observations *)
 Definition track (raw : option config) (ms : mstate) (before : obs) (ev : event) (after : obs) : mstate :=
   let pubs := outs_pubs (ev_out ev) in
@@ -165,7 +178,8 @@ Definition track (raw : option config) (ms : mstate) (before : obs) (ev : event)
                       (match ms_raw ms with
                        | Some r => Some r
                        | None => if o_cfgset after then Some raw else None
-                       end) in
+                       end)
+                      (ms_res ms + if is_resurrection before ev then 1 else 0) in
   let ms2 :=
     match ev_op ev with
     | OpPick pi m hasctx reqkeys deadline cancelled =>
@@ -301,7 +315,7 @@ Definition c02_event (raw : option config) (ms : mstate) (before : obs) (ev : ev
   end.
 
 (* --- C03 pool size --- *)
-Definition c03_event (raw : option config) (ms : mstate) (before : obs) (ev : event) (after : obs) : bool :=
+Definition c03_event (slack : Z) (raw : option config) (ms : mstate) (before : obs) (ev : event) (after : obs) : bool :=
   let e := eff raw in
   (* size right after the first accepted resolver update *)
   (match ev_op ev with
@@ -311,7 +325,7 @@ Definition c03_event (raw : option config) (ms : mstate) (before : obs) (ev : ev
    | _ => true
    end) &&
   (* the bound *)
-  (if o_cfgset after && (c_min e <=? c_max e) then o_pool_size after <=? c_max e else true) &&
+  (if o_cfgset after && (c_min e <=? c_max e) then o_pool_size after <=? c_max e + slack else true) &&
   (* who may create connections, and when *)
   (match ev_op ev with
    | OpResolver _ _ => if has_newsc (ev_out ev) then o_pool_size before =? 0 else true
@@ -594,7 +608,9 @@ Definition c20_event (ms_after : mstate) (before : obs) (ev : event) (after : ob
   end.
 
 (* ------------------------------------------------------------ folding over a trace *)
-Inductive prop_id := P01 | P02 | P03 | P04 | P05 | P06 | P07 | P08 | P09 | P20.
+(* P03R: C03 with the size bound relaxed by one per revived channel; used only to
+   recognise known finding RES (the full-strength monitor is P03) *)
+Inductive prop_id := P01 | P02 | P03 | P03R | P04 | P05 | P06 | P07 | P08 | P09 | P20.
 
 Definition event_ok (pid : prop_id) (raw : option config) (ms : mstate) (before : obs) (ev : event) : bool :=
   match ev_obs ev with
@@ -611,7 +627,8 @@ Definition event_ok (pid : prop_id) (raw : option config) (ms : mstate) (before 
       match pid with
       | P01 => c01_event raw ms before ev && c01_state ms' after
       | P02 => c02_event raw ms before ev && c02_state ms' after
-      | P03 => c03_event raw ms before ev after
+      | P03 => c03_event 0 raw ms before ev after
+      | P03R => c03_event (ms_res ms') raw ms before ev after
       | P04 => c04_event ms ms' before ev after
       | P05 => c05_event ev
       | P06 => c06_event raw ms' ev
@@ -639,7 +656,19 @@ Definition monitor (pid : prop_id) (raw : option config) (o0 : obs) (tr : list e
 Definition C01_ok := monitor P01.
 Definition C02_ok := monitor P02.
 Definition C03_ok := monitor P03.
+Definition C03R_ok := monitor P03R.
 Definition C04_ok := monitor P04.
+
+(* trigger of known finding RES: the trace contains a revival, and C03 fails only through it *)
+Fixpoint has_resurrection (before : obs) (tr : list event) : bool :=
+  match tr with
+  | [] => false
+  | ev :: r => is_resurrection before ev ||
+               match ev_obs ev with Some after => has_resurrection after r | None => false end
+  end.
+
+Definition known_RES (raw : option config) (o0 : obs) (tr : list event) : bool :=
+  has_resurrection o0 tr && negb (C03_ok raw o0 tr) && C03R_ok raw o0 tr.
 Definition C05_ok := monitor P05.
 Definition C06_ok := monitor P06.
 Definition C07_ok := monitor P07.
